@@ -231,3 +231,21 @@ fn finishblock_layout_bounded() {
     assert!(index[0].first_rowid == 0 && index[0].row_count == rows as u32);
     kani::cover!(payload[0] == 0xFF);
 }
+
+// ---------------------------------------------------------------- U-arraysum (C02): SUM over a chunk
+
+/// SUM ignores NULL inputs and is NULL when there is no non-NULL input. `ArrayImpl::sum` is the
+/// chunk-at-a-time step used by ungrouped aggregation. Bounded: a 1-row and a 2-row Int32 array.
+#[kani::proof]
+#[kani::unwind(4)]
+fn arraysum_null_semantics_bounded() {
+    use crate::array::{ArrayImpl, I32Array};
+    use crate::types::DataValue;
+    let x: i32 = kani::any();
+    // [NULL]  ->  NULL
+    let a: I32Array = [None::<i32>].into_iter().collect();
+    assert!(ArrayImpl::Int32(a.into()).sum() == DataValue::Null);
+    // [NULL, x]  ->  x
+    let b: I32Array = [None, Some(x)].into_iter().collect();
+    assert!(ArrayImpl::Int32(b.into()).sum() == DataValue::Int32(x));
+}
